@@ -89,25 +89,53 @@ Proof.
     + apply (IH _ _ _ _ _ (fun v Hv => proj1 (proj1 (wherev_In _ _ _) Hv)) Hsub2 HS1 E).
 Qed.
 
-Lemma closed_chain n G st : closed n G st -> forall r a, (a < n)%nat -> sD st a <> None ->
-  inb n r = true -> chain G a r = true -> sD st (last (a :: r) a) <> None.
+Lemma last_default_irrel (r : list nat) b a : last (b :: r) a = last (b :: r) b.
+Proof. revert b. induction r as [|c r IH]; intros b; [reflexivity|]. cbn [last] in *. destruct r; [reflexivity|apply IH]. Qed.
+
+(* along any walk from a reached node the final distance obeys the accumulated triangle inequality *)
+Lemma closed_chain n G st : closed n G st -> forall r a da, (a < n)%nat -> sD st a = Some da ->
+  inb n r = true -> chain G a r = true ->
+  exists dl, sD st (last (a :: r) a) = Some dl /\ dl <= da + clen G a r.
 Proof.
-  intros Hc. induction r as [|b r IH]; intros a Ha Hd Hi Hch; [exact Hd|].
-  cbn [inb forallb] in Hi. apply andb_true_iff in Hi. destruct Hi as [Hb Hi]. apply Nat.ltb_lt in Hb.
-  cbn [chain] in Hch. apply andb_true_iff in Hch. destruct Hch as [He Hch].
-  unfold edge in He. apply negb_true_iff, Z.eqb_neq in He.
-  assert (Hdb : sD st b <> None) by (apply (Hc a b); assumption).
-  specialize (IH b Hb Hdb Hi Hch).
-  change (last (a :: b :: r) a) with (last (b :: r) a).
-  replace (last (b :: r) a) with (last (b :: r) b); [exact IH|].
-  clear. revert b. induction r as [|c r IH]; intros b; [reflexivity|]. cbn [last] in *. destruct r; [reflexivity|apply IH].
+  intros Hc. induction r as [|b r IH]; intros a da Ha Hd Hi Hch.
+  - exists da. cbn [last clen]. split; [exact Hd|lia].
+  - cbn [inb forallb] in Hi. apply andb_true_iff in Hi. destruct Hi as [Hb Hi]. apply Nat.ltb_lt in Hb.
+    cbn [chain] in Hch. apply andb_true_iff in Hch. destruct Hch as [He Hch].
+    unfold edge in He. apply negb_true_iff, Z.eqb_neq in He.
+    destruct (Hc a b da Ha Hb Hd He) as (db & Edb & Hle).
+    destruct (IH b db Hb Edb Hi Hch) as (dl & El & Hl).
+    change (last (a :: b :: r) a) with (last (b :: r) a). rewrite last_default_irrel.
+    exists dl. split; [exact El|]. cbn [clen]. lia.
 Qed.
 
-(* path-counting phase of betweenness_wei / edge_betweenness_wei: PARTIAL correctness *)
-Theorem search_w_reach_partial n G u : (u < n)%nat -> nonneg_len n G ->
+(* distances only decrease during the search *)
+Lemma search_w_dec n : forall fuel Sm G1 V st st' x d, (x < n)%nat -> sD st x = Some d ->
+  search_w fuel n Sm G1 V st = Some st' -> exists d', sD st' x = Some d' /\ d' <= d.
+Proof.
+  induction fuel as [|f IH]; intros Sm G1 V st st' x d Hx Hd E; [discriminate|].
+  cbn [search_w] in E.
+  set (S1 := tabv false n (fun i => if nmem i V then false else Sm i)) in *.
+  set (G2 := zero_cols n V G1) in *.
+  set (st1 := tab_sst n (fold_left (visit_w n G2) V st)) in *.
+  assert (H1 : exists d1, sD st1 x = Some d1 /\ d1 <= d).
+  { unfold st1. destruct (tab_sst_spec n (fold_left (visit_w n G2) V st)) as (TD & _). rewrite (TD x Hx).
+    apply fold_visit_w_dec. exact Hd. }
+  destruct H1 as (d1 & E1 & Hle1).
+  destruct (wherev n S1) as [|a sel'] eqn:Esel.
+  - inversion E; subst. exists d1. auto.
+  - cbn zeta in E. destruct (isinf (min_over (sD st1) (a :: sel'))).
+    + unfold fill_front in E. destruct (Nat.eqb _ _); [|discriminate]. inversion E; subst.
+      cbn [sD]. exists d1. auto.
+    + destruct (IH _ _ _ _ _ x d1 Hx E1 E) as (d2 & E2 & Hle2). exists d2. split; [exact E2|lia].
+Qed.
+
+(* path-counting phase of betweenness_wei / edge_betweenness_wei: the DISTANCES are correct (and the reached set,
+   and NP >= 1 on it).  PARTIAL with respect to the full statement search_correct_wei (Properties/C08.v):
+   NP = sigma and "P = the tight connections" are not proved. *)
+Theorem search_w_dist_partial n G u : (u < n)%nat -> nonneg_len n G ->
   exists st, source_w n G u = Some st /\
-    (forall x, (x < n)%nat -> (sD st x <> None <-> reachable n G u x)) /\
-    (forall x d, (x < n)%nat -> sD st x = Some d -> exists p, is_walk n G u x p /\ wlen G p = d) /\
+    (forall x, (x < n)%nat -> match sD st x with Some d => is_dist n G u x d | None => ~ reachable n G u x end) /\
+    (forall x, (x < n)%nat -> sD st x = dist_spec n G u x) /\
     (forall x, (x < n)%nat -> reachable n G u x -> 1 <= sNP st x).
 Proof.
   intros Hu HG. destruct (queue_slots_w_closed n G u Hu HG) as (st & E & Hok & Hcl). exists st.
@@ -119,20 +147,37 @@ Proof.
     - intros x d Hx. unfold init_w. cbn [sD]. unfold vupd. destruct (Nat.eqb_spec x u) as [->|Hne]; [|discriminate].
       intros Ed. inversion Ed; subst d. exists [u]. split; [|reflexivity].
       unfold wft. cbn [last inb forallb chain]. rewrite Nat.eqb_refl, (proj2 (Nat.ltb_lt u n) Hu). reflexivity. }
-  destruct Hok as (front & _ & _ & _ & _ & _ & _ & Hv & _ & Hlast & Hne & _ & HNP).
-  assert (Hdu : sD st u <> None).
-  { assert (In u (vis n st)). { destruct (exists_last Hne) as [l [z Ez]]. rewrite Ez, last_last in Hlast. subst z.
-      rewrite Ez. apply in_app_iff. right. left. reflexivity. }
-    apply Hv in H. tauto. }
-  assert (Hreach : forall x, (x < n)%nat -> (sD st x <> None <-> reachable n G u x)).
-  { intros x Hx. split.
-    - intros Hd. destruct (sD st x) as [d|] eqn:Ed; [|congruence]. destruct (HS x d Hx Ed) as (p & Hp & _).
-      exists p. exact Hp.
-    - intros [p Hp]. apply wft_iff in Hp. destruct Hp as (Hh & Hl & Hi & Ho).
-      destruct p as [|a r]; [discriminate|]. inversion Hh; subst a. cbn [okl] in Ho.
-      cbn [inb forallb] in Hi. apply andb_true_iff in Hi. destruct Hi as [_ Hi].
-      rewrite <- Hl. apply (closed_chain n G st Hcl r u Hu Hdu Hi Ho). }
-  split; [exact Hreach|]. split.
-  - intros x d Hx Ed. destruct (HS x d Hx Ed) as (p & Hp & Hl). exists p. split; [exact Hp|exact Hl].
-  - intros x Hx Hr. apply Hreach in Hr; [|exact Hx]. specialize (HNP x Hx Hr). lia.
+  (* D[u] = 0 *)
+  assert (Hdu : sD st u = Some 0).
+  { unfold source_w in E.
+    assert (E0 : sD (init_w n u) u = Some 0) by (unfold init_w; cbn [sD]; apply vupd_same).
+    destruct (search_w_dec n n (fun _ => true) (tab 0 n n G) [u] (init_w n u) st u 0 Hu E0 E) as (d' & Ed' & Hle).
+    destruct (HS u d' Hu Ed') as (p & Hp & Hl). apply wft_iff in Hp. destruct Hp as (_ & _ & Hi & Ho).
+      pose proof (wlen_ge n G p HG Hi Ho) as Hge. assert (p <> []) by (intros ->; discriminate).
+      destruct p; [congruence|]. cbn [length] in Hge. assert (d' = 0) by lia. congruence. }
+
+  destruct Hok as (front & _ & _ & _ & _ & _ & _ & _ & _ & _ & _ & _ & HNP).
+  assert (Hlow : forall x p, wft n G u x p = true -> exists dl, sD st x = Some dl /\ dl <= wlen G p).
+  { intros x p Hp. apply wft_iff in Hp. destruct Hp as (Hh & Hl & Hi & Ho).
+    destruct p as [|a r]; [discriminate|]. inversion Hh; subst a. cbn [okl] in Ho.
+    cbn [inb forallb] in Hi. apply andb_true_iff in Hi. destruct Hi as [_ Hi].
+    destruct (closed_chain n G st Hcl r u 0 Hu Hdu Hi Ho) as (dl & El & Hle). rewrite Hl in El.
+    exists dl. split; [exact El|]. cbn [wlen]. lia. }
+  assert (Hmain : forall x, (x < n)%nat ->
+            match sD st x with Some d => is_dist n G u x d | None => ~ reachable n G u x end).
+  { intros x Hx. destruct (sD st x) as [d|] eqn:Ed.
+    - split.
+      + destruct (HS x d Hx Ed) as (p & Hp & Hl). exists p. split; [exact Hp|exact Hl].
+      + intros p Hp. destruct (Hlow x p Hp) as (dl & El & Hle). assert (dl = d) by congruence. lia.
+    - intros [p Hp]. destruct (Hlow x p Hp) as (dl & El & _). congruence. }
+  split; [exact Hmain|]. split.
+  - intros x Hx. specialize (Hmain x Hx). pose proof (dist_spec_correct n G u x HG) as Hspec.
+    destruct (sD st x) as [d|] eqn:Ed, (dist_spec n G u x) as [d'|] eqn:Es.
+    + destruct Hmain as [[p [Hp Hl]] Hmin], Hspec as [[p' [Hp' Hl']] Hmin'].
+      specialize (Hmin p' Hp'). specialize (Hmin' p Hp). f_equal. lia.
+    + exfalso. apply Hspec. destruct Hmain as [[p [Hp _]] _]. exists p. exact Hp.
+    + exfalso. apply Hmain. destruct Hspec as [[p [Hp _]] _]. exists p. exact Hp.
+    + reflexivity.
+  - intros x Hx Hr. specialize (Hmain x Hx). destruct (sD st x) as [d|] eqn:Ed; [|contradiction].
+    assert (0 < sNP st x) by (apply HNP; [exact Hx|congruence]). lia.
 Qed.
